@@ -142,7 +142,7 @@ def c10(pid, tier, seed):
 
 def c14(pid, tier, seed):
     q = tier == "quick"
-    alltpl = {"S", "B", "W", "SB", "SBWM", "B0", "WW", "WnM", "MnW", "bad"}
+    alltpl = {"S", "B", "W", "SB", "SBWM", "B0", "WW", "WnM", "MnW", "L", "bad"}
     gens = [
         gen("calls3", "MC_Style", dict(D=3, FirstTpls=alltpl, Tpls={"WW", "S", "WnM"} if q else alltpl, Level=2)),
     ]
@@ -153,6 +153,7 @@ def c14(pid, tier, seed):
                     "every sequence of up to D builder calls (with_template, template, tick_chars, tick_strings, progress_chars, with_key) over argument classes "
                     "(0-3 tick characters / strings, empty strings, multi-character clusters, 0-4 progress clusters of equal / unequal / zero width), cut where the contract "
                     "rejects; then four bars (terminal width 1 and 10, with and without length) drawn at tick 0, 1, n-2, n-1, n, n+1, position 0 / middle / end, "
+                    "one bar on a terminal of 1000 columns (templates include fields of 257-600 columns), "
                     "finished and not, once on the steady-tick thread, a later call on the same bar, get_tick_str at 0, 1, n-2, n-1, n, 2^32, u64::MAX. "
                     "BuildRule: invalid arguments <=> the call panics; UseRule: nothing panics once built.",
                     ["cluster count / character count / column width of the argument tokens are facts of the alphabet in StyleBuilder.tla (ASCII, two CJK ideographs, "
